@@ -173,6 +173,12 @@ def lck4b(P, R, L):
                             if o.kind == "call" and o.site is not None and o.site.args and any(
                                     "maybe_bad_database_state" in a.path for a in _o(b, o.site.args[0])):
                                 good = True
+            # a loop that waits for `background_compaction_scheduled == false` needs no such exit: the worker clears that flag
+            # and notifies at the end of every task, error or not (PAIR-4) — the same loop Drop uses (ORD-12)
+            for y in cyc & set(field_reads(b, "background_compaction_scheduled")):
+                t = b.term(y)
+                if t["k"] == "switch" and any(tg not in cyc for _, tg in b.edges(y)):
+                    good = True
             if not good:
                 ok = False
                 det.append("the wait at line %s is in a loop that does not leave on maybe_bad_database_state" % w.line)
@@ -484,6 +490,8 @@ def run(P, R, L):
     K.pair9_boundary_inputs(P, R, L)
     K.pair9_levels(P, R, L)
     K.bundle_no_assertion_trips(P, R, L)
+    R.clause("ORD-19", "force_level_compaction withdraws its request only after the background work finished (the compaction thread unwraps the slot at the end of the compaction it was asked for)")
+    K.ord19_manual_request_withdrawn_after_work(P, R, L)
     # a blocking flock turns "already open elsewhere" from an error into an open / destroy that never returns
     from .c17 import grd9
     grd9(P, R, L)
